@@ -1,4 +1,4 @@
-import Crusta.Proofs.DynQuery
+import Crusta.Proofs.DynPR
 
 /-!
 # Every reachable state of a dynamic solver, every query, every sound reply list
@@ -39,9 +39,11 @@ theorem inv_init (sem : DSem) (d : Nat → Prop) :
   · intro v ⟨h, _⟩; cases h
   · intro c hc; simp at hc
   · intro i hi; rw [hid] at hi; cases hi
+  · intro v i hv; rw [hty] at hv; cases hv
 
 theorem QInv_init (sem : DSem) : QInv sem (DState.init sem) ({} : World).onNew := by
-  refine ⟨⟨inv_empty, ⟨rfl, _, _, inv_init sem _⟩, rfl, rfl, Nat.le_refl _⟩, inv_empty, ?_⟩
+  refine ⟨⟨⟨by simp [World.onNew], Bounded_onNew Bounded_empty⟩, inv_empty, ⟨rfl, _, _, inv_init sem _⟩, rfl, rfl,
+    Nat.le_refl _⟩, inv_empty, ?_, rows_empty⟩
   intro c hc
   simp [DState.init] at hc
 
@@ -73,9 +75,10 @@ theorem tail_after_update (buffer : List Event) (ev : Event) (hev : ev.isUpdate 
 /-- pushing an effective update -/
 theorem QInv_buffer_update {sem : DSem} {d : DState} {w : World} (h : QInv sem d w) {ev : Event} {op : StoreOp}
     {p : Store} (hop : Event.op ev = some op) (hev : ev.isUpdate = true) (heff : Eff d.pending op p)
-    (hp : p.Inv) : QInv sem { d with pending := p, buffer := d.buffer ++ [ev] } w := by
+    (hp : p.Inv) (hpr : p.RowsNodup := step_rows h.pend_inv h.pend_rows op p heff.1) : QInv sem { d with pending := p, buffer := d.buffer ++ [ev] } w := by
   have hle := h.dinv.next_le
-  refine ⟨⟨h.dinv.af_inv, h.dinv.clean, h.dinv.disabled, ?_, by show d.next ≤ (d.buffer ++ [ev]).length; simp; omega⟩, hp, ?_⟩
+  refine ⟨⟨h.dinv.w0, h.dinv.af_inv, h.dinv.clean, h.dinv.disabled, ?_,
+    by show d.next ≤ (d.buffer ++ [ev]).length; simp; omega⟩, hp, ?_, hpr⟩
   · show EffRun d.af ((d.buffer ++ [ev]).drop d.next) p
     rw [List.drop_append_of_le_length hle]
     exact EffRun_append _ _ _ _ _ _ h.dinv.sync hop heff
@@ -229,8 +232,9 @@ theorem update_enc (d : DState) (op : StoreOp) : (d.update op).1.enc = d.enc := 
     · rfl
   | remAtt a b => simp only [DState.update]; split <;> rfl
 
-/-- one query on a state satisfying the invariant, on sound replies -/
-theorem query_ok {sem : DSem} (hsem : sem ≠ .PR) {fuel : Nat} {d : DState} {w : World} (h : QInv sem d w)
+/-- one query on a state satisfying the invariant, on sound replies (all three semantics; the
+preferred solver offers the skeptical query only, `wp_prSkepQuery`) -/
+theorem query_ok {sem : DSem} {fuel : Nat} {d : DState} {w : World} (h : QInv sem d w)
     (henc : d.enc.sem = sem) (q : DQuery) {l id : Nat} (hl : d.pending.Live id l)
     {rs : List Reply} (hs : RunSound (query fuel d q l) rs w) {d' : DState} {a : AccAns} {w' : World}
     (hrun : interp (query fuel d q l) rs w = (.done (d', a), w')) :
@@ -240,14 +244,20 @@ theorem query_ok {sem : DSem} (hsem : sem ≠ .PR) {fuel : Nat} {d : DState} {w 
     unfold query
     rw [henc]
     cases sem with
-    | PR => exact absurd rfl hsem
+    | PR =>
+      cases q with
+      | cred => exact trivial
+      | skep =>
+        refine wp_mono _ _ _ _ ?_ (wp_prSkepQuery fuel h h.dinv.w0.2 hl)
+        rintro r w' ⟨h1, _, h2, h3⟩
+        exact ⟨h1, h2, h3⟩
     | CO =>
       cases q with
-      | cred => exact wp_credQuery hsem h hl
+      | cred => exact wp_credQuery (by simp) h hl
       | skep => exact trivial
     | ST =>
       cases q with
-      | cred => exact wp_credQuery hsem h hl
+      | cred => exact wp_credQuery (by simp) h hl
       | skep => exact wp_stSkepQuery h hl
   exact wp_sound _ rs w w' (d', a) _ key hs hrun
 
@@ -274,7 +284,7 @@ theorem runOps_append (s : Store) : ∀ (ops : List StoreOp) (op : StoreOp) (s1 
 
 /-- **every reachable state satisfies the invariant**, and its pending framework is the store
 obtained by applying the update calls made so far (rejected ones having no effect) -/
-theorem reach_inv {sem : DSem} (hsem : sem ≠ .PR) {fuel : Nat} {ops : List StoreOp} {d : DState} {w : World}
+theorem reach_inv {sem : DSem} {fuel : Nat} {ops : List StoreOp} {d : DState} {w : World}
     (h : Reach sem fuel ops d w) :
     QInv sem d w ∧ d.enc.sem = sem ∧ runOps Store.empty ops = some d.pending := by
   induction h with
@@ -289,7 +299,7 @@ theorem reach_inv {sem : DSem} (hsem : sem ≠ .PR) {fuel : Nat} {ops : List Sto
     · simp only [runOps, herr, hd]
   | @query ops d w q l id rs d' a w' _ hl hs hrun ih =>
     obtain ⟨hq, henc, hops⟩ := ih
-    obtain ⟨hq', hp, _⟩ := query_ok hsem hq henc q hl hs hrun
+    obtain ⟨hq', hp, _⟩ := query_ok hq henc q hl hs hrun
     refine ⟨hq', ?_, by rw [hp]; exact hops⟩
     obtain ⟨hs', _⟩ := hq'.dinv.clean
     exact hs'
